@@ -24,12 +24,14 @@ CLASSICAL_FAULTS_NA = ["message-loss", "message-duplication", "message-reorderin
                        "crash-restart", "torn-write", "disk-error", "clock-skew(wall)", "failing-syscall", "thread-preemption"]
 
 
-COMMON_SPACE = (" || Common to all families: boxes of dimension 1-3 mixing unit, shifted, negative, dyadic, large-offset (1e6) and narrow "
-                "(1e-3) sides, written with float or int bounds and, for cubes, also as [[lo, hi]] * d (shared rows); partitions Binary, "
-                "RandomBinary, DimensionBinary, K-ary and RandomK-ary with K in 2..5; budgets half round numbers, half arbitrary integers; "
+COMMON_SPACE = (" || Common to all families: boxes of dimension 1-3 (7% of runs: 4 or 5) mixing unit, shifted, negative, dyadic, "
+                "zero-straddling non-dyadic ([-0.7, 0.4]), large-offset (1e6) and narrow (1e-3) sides, written with float or int bounds and, "
+                "for cubes, also as [[lo, hi]] * d (shared rows); partitions Binary, RandomBinary, DimensionBinary, K-ary and RandomK-ary "
+                "with K in 2..5 (6% of K-ary runs: 6..8); budgets half round numbers, half arbitrary integers; "
                 "reward programs constant / zero / negative / integer-tied / Gaussian / objective / late maximum / alternating sign / few "
                 "levels / monotone-to-a-corner / decaying / ramp / Bernoulli / scores, scaled by 1e6, 1e-9 or -1, riding on offsets up to "
-                "1e8, typed float / int / np.float64 / np.bool_ / np.uint8 / np.int8; np.random owned by the simulator (scripted policies "
+                "1e8, typed float / int / bool / np.float64 / np.bool_ / np.uint8 / np.int8 / np.int16 / np.int64 (and, for DOO/SOO/SequOOL, exact "
+                "Python integers around +-2^60); np.random owned by the simulator (randint, uniform, choice, random, rand: scripted policies "
                 "with forced end-point, first/last/least-likely outcomes, or the real generator under a logged seed); get_last_point "
                 "interjected between rounds and between a pull and its reward where that is a read; a neighbour instance of the same class "
                 "built before and stepped between the rounds of the instance under test.  Every run executes in its own forked child.")
